@@ -37,6 +37,7 @@ structure DState where
   env : Array Ref := #[]
   tab : Table Item := Table.newWith 0 0
   tabKind : Nat := 0
+  tnode : Table Node := Table.newWith 0 0
   cch : Cache (UInt64 × UInt64) Nat := Cache.new 0
   ckc : Cache OpKey Ref := Cache.new 0
   raw : R.Raw Nat Nat := R.Raw.new
@@ -277,6 +278,25 @@ def step (d : DState) (line : String) : DState × String :=
       | .error e => (d, "panic " ++ e.toString)
     | none => bad
   | ["t.dump"] => (d, tableSnapshot d.tab (fun it => toString it.v))
+  -- Table<Node> driven directly (triples need not be well-formed nodes)
+  | ["tn.new", bits, bb] =>
+    match bits.toNat?, bb.toNat? with
+    | some bits, some bb => ({ d with tnode := Table.newWith bits bb }, "ok")
+    | _, _ => bad
+  | ["tn.put", v, lo, hi] =>
+    match v.toNat?, lo.toNat?, hi.toNat? with
+    | some v, some lo, some hi =>
+      match d.tnode.put ⟨v, refOfRaw lo, refOfRaw hi⟩ with
+      | .ok (t, i) => ({ d with tnode := t }, toString i)
+      | .error e => (d, "panic " ++ e.toString)
+    | _, _, _ => bad
+  | ["tn.drop", i] =>
+    match i.toNat? with
+    | some i => match d.tnode.drop i with
+      | .ok t => ({ d with tnode := t }, "ok")
+      | .error e => (d, "panic " ++ e.toString)
+    | none => bad
+  | ["tn.dump"] => (d, tableSnapshot d.tnode showNode)
   -- Cache<(u64,u64),u64> driven directly
   | ["c.new", bits] =>
     match bits.toNat? with | some b => ({ d with cch := Cache.new b }, "ok") | none => bad
